@@ -1,6 +1,6 @@
 """C02 configuration for ./check (see checks/propcfg.py for the keys)."""
 CFG = {
-    "modules": ["VaxisModel.Props.C02", "VaxisModel.Props.C02Acts", "VaxisModel.Props.C02Text", "VaxisModel.Props.C02Refine", "VaxisModel.Props.C02Stdlib", "VaxisModel.Witness.F102"],
+    "modules": ["VaxisModel.Props.C02", "VaxisModel.Props.C02Acts", "VaxisModel.Props.C02Text", "VaxisModel.Props.C02Refine", "VaxisModel.Props.C02Stdlib", "VaxisModel.Props.C08Payload", "VaxisModel.Witness.F102"],
     "extractors": ["C02"],
     "drivers": ["C02"],
     "trivial_prefix": ("Z",),
@@ -37,8 +37,9 @@ CFG = {
                   "(CSI wraps mod 2^64, DCS >= 2^63 => error + nil parameters). Action bodies (collect ... csiDispatch, hook) and the bodies of readRune and print (incl. the Print width) are interpreted from statement skeletons regenerated from the source; "
                   "the interpretation equals the model functions for every reader state, the correspondence driver executes the interpreted bodies with the regenerated table, "
                   "and every Print of every stream is one oracle cluster or a piece cut at a read boundary / in front of an invalid byte (print_takes_one_cluster), with StringWidth of its grapheme (print_width).",
-    "level_note": "Proved: see notes/C02.md tables (Props/C02, C02Text, C02Refine, C02Acts, C02Stdlib, Witness/F102: 96 theorems). Round 4: readRune_body_eq_model / print_body_eq_model / csiDispatch_body / hook_body are proved by evaluating the interpreter on the "
+    "level_note": "Proved: see notes/C02.md tables (Props/C02, C02Text, C02Refine, C02Acts, C02Stdlib, C08Payload, Witness/F102: 98 theorems). Round 4: readRune_body_eq_model / print_body_eq_model / csiDispatch_body / hook_body are proved by evaluating the interpreter on the "
                   "regenerated bodies (no transcribed skeleton copy: a meaning-preserving reorder does not alarm, a meaning-changing one fails exactly that theorem; reader_skeleton_recognised = fully recognised). "
+                  "Props/C08Payload (shared with C08) is in the module list: the list model cannot tell a fresh slice from one truncated in place or taken from a pool with its old length, so 'exact payload / parameters' also needs delivered_payloads_not_recycled and handover_takes_fresh_storage (seeded changes C02-m3, C02-m5 break these). "
                   "Validated by run-time contract check: the meaning of the bufio/utf8 stdlib calls (StdlibContract, every clause on every case against the real stdlib). "
                   "False with witness (recorded finding): F102 ST of an empty string delivered (negation of model_refines_spec_full in Witness/F102.lean; pinned by a baseline test). "
                   "Fixed in /repo: F05, F07, F102b, F102c (44d8b73), F102d (6b7d19e) - their witnesses are regression theorems and corpus cases now.",
